@@ -65,6 +65,14 @@ func main() {
 	devEnv := []string{"TEMPL_DEV_MODE=true", "TEMPL_DEV_MODE_ROOT=" + devRoot}
 
 	tier := os.Args[1:]
+	for _, a := range tier {
+		if a == "--replay" {
+			if rc := vchild(devEnv, "", append(append([]string{}, tier...), "explore-dev")...); rc != 0 {
+				os.Exit(rc)
+			}
+			os.Exit(vchild(nil, "", tier...))
+		}
+	}
 	// 1. free-running race passes (normal and development mode)
 	for _, dev := range []bool{false, true} {
 		env := []string{"VERIF_CHILD_RACE=1", "GORACE=halt_on_error=0"}
